@@ -1122,10 +1122,12 @@ tp_shutdown(tp_p tp) {
 	if (0 != tp->shutdown)
 		return;
 	tp->shutdown ++;
-	/* Private virtual thread. */
-	tp->pvt->state = TP_THREAD_STATE_STOP;
-	if (NULL != tp->s.tpt_on_stop) {
-		tp->s.tpt_on_stop(tp->pvt);
+	/* Private virtual thread: only if tp_create() got as far as starting it. */
+	if (TP_THREAD_STATE_RUNNING == tp->pvt->state) {
+		tp->pvt->state = TP_THREAD_STATE_STOP;
+		if (NULL != tp->s.tpt_on_stop) {
+			tp->s.tpt_on_stop(tp->pvt);
+		}
 	}
 	/* Shutdown threads. */
 	for (size_t i = 0; i < tp->s.threads_max; i ++) {
